@@ -148,20 +148,71 @@ def _need_blank(prev, s):
     return False
 
 
-def to_text(toks, rng=None):
-    """bytes source text; optional blanks are added at random (always, if rng is None)."""
+FEATURES = ('blank-inside-relational-operator', 'word-operator-letter-case', 'variable-name-letter-case',
+            'no-blank-between-tokens', 'several-blanks-between-tokens')
+
+
+def _recase(word, rng):
+    r = rng.random()
+    if r < 0.4:
+        return word.lower()
+    if r < 0.6:
+        return word.capitalize()
+    return ''.join(c.lower() if rng.random() < 0.5 else c for c in word)
+
+
+def to_text(toks, rng=None, used=None, force=None):
+    """
+    bytes source text of a token list.  The SPELLING is free wherever GW-BASIC allows it and never changes the tree:
+    optional blanks between any two tokens (none, one, several), blanks between the two characters of <= >= <> =< => ><,
+    letter case of word operators and variable names.  rng=None: canonical spelling (one blank between tokens, upper
+    case).  used: set that receives the names of the spelling features applied.  force: apply exactly that one feature
+    everywhere (deterministic; used to name the feature responsible for a disagreement).
+    """
+    def on(feature, p):
+        if force is not None:
+            hit = force == feature
+        else:
+            hit = rng is not None and rng.random() < p
+        if hit and used is not None:
+            used.add(feature)
+        return hit
+
+    r_ = rng
+    if force is not None and r_ is None:
+        import random as _random
+        r_ = _random.Random(0)
     out = []
     for tk in toks:
         if tk == '(' or tk == ')':
             out.append(tk)
         elif tk[0] == 'leaf':
-            out.append(leaf_text(tk[1]))
+            t = leaf_text(tk[1])
+            if tk[1][0] == 'V' and on('variable-name-letter-case', 0.3):
+                t = t.lower()
+            out.append(t)
         else:
-            out.append(tk[1])
+            o = tk[1]
+            if o[0].isalpha():
+                if on('word-operator-letter-case', 0.4):
+                    o = o.lower() if force is not None else _recase(o, r_)
+            elif len(o) == 2 and on('blank-inside-relational-operator', 0.35):
+                o = o[0] + ' ' * (1 if force is not None else r_.randint(1, 2)) + o[1]
+            out.append(o)
     text = out[0] if out else ''
     for i in range(1, len(out)):
-        if _need_blank(out[i - 1], out[i]) or rng is None or rng.random() < 0.5:
+        if _need_blank(out[i - 1], out[i]):
             text += ' '
+            if on('several-blanks-between-tokens', 0.1):
+                text += ' '
+        elif rng is None and force is None:
+            text += ' '
+        elif on('no-blank-between-tokens', 0.45):
+            pass
+        else:
+            text += ' '
+            if on('several-blanks-between-tokens', 0.1):
+                text += '  '
         text += out[i]
     return text.encode('latin-1')
 
